@@ -612,8 +612,38 @@ def reduce(stmts, still_fails, max_steps=4000):
 def signature(stmts):
     """Coarse set of constructs present (root-cause signature of a minimal skeleton).
     Tokens: L (while/for) INF (while True) LELSE LJ (break/continue) EXIT (return/raise) CALL
-    TRY EXC TELSE FIN WS WN IF IELSE."""
+    TRY EXC TELSE FIN WS WN IF IELSE; JT:<c> for every with / try part a break or continue passes
+    through on the way to its loop (WS WN TRY EXC TELSE FIN), LIN:<c> for every with / try part
+    that encloses a loop containing a jump."""
     toks = set()
+
+    def jumps(b, through):
+        """through: with/try parts entered since the innermost loop."""
+        found = False
+        for s in b or []:
+            t = s[0]
+            if t in ("break", "continue"):
+                found = True
+                for c in through:
+                    toks.add("JT:" + c)
+            elif t == "if":
+                found |= jumps(s[1], through) | jumps(s[2], through)
+            elif t in ("while", "for", "whiletrue"):
+                inner = jumps(s[1], [])
+                if inner:
+                    for c in through:
+                        toks.add("LIN:" + c)
+                if t != "whiletrue":
+                    found |= jumps(s[2], through)
+            elif t == "try":
+                found |= jumps(s[1], through + ["TRY"])
+                for h in s[2]:
+                    found |= jumps(h, through + ["EXC"])
+                found |= jumps(s[3], through + ["TELSE"]) | jumps(s[4], through + ["FIN"])
+            elif t == "with":
+                found |= jumps(s[2], through + ["W" + s[1]])
+        return found
+    jumps(stmts, [])
 
     def go(b):
         for s in b or []:
